@@ -261,4 +261,76 @@ theorem go_handleLeaderOffsetRequest (req : Option Int) (endOf : Int → Int) :
   cases req <;>
     simp [runG, fn_partition_handleLeaderOffsetRequest, gomini, responses, offExt, builtin, lookup, getField, binVal, isNil, truthy, logV]
 
+/-! ### the follower's requests: what it asks the leader for, and when it reports the leader -/
+
+@[simp] theorem lk_clh : evalE.lookup' "checkLeaderHealth" prog = some fn_partition_checkLeaderHealth := by simp [prog, gomini]
+@[simp] theorem lk_srr : evalE.lookup' "sendReplicationRequest" prog = some fn_partition_sendReplicationRequest := by simp [prog, gomini]
+@[simp] theorem lk_since : evalE.lookup' "time.Since" prog = none := by simp [prog, gomini]
+@[simp] theorem lk_bg : evalE.lookup' "context.Background" prog = none := by simp [prog, gomini]
+@[simp] theorem lk_report : evalE.lookup' "ReportLeader" prog = none := by simp [prog, gomini]
+@[simp] theorem lk_mrr : evalE.lookup' "proto.MarshalReplicationRequest" prog = none := by simp [prog, gomini]
+@[simp] theorem lk_req : evalE.lookup' "Request" prog = none := by simp [prog, gomini]
+@[simp] theorem lk_inbox : evalE.lookup' "getReplicationRequestInbox" prog = none := by simp [prog, gomini]
+
+def encPartR (me stream : String) (id timeout : Int) : Val :=
+  .struct [("Stream", .str stream), ("Id", .int id), ("log", logV),
+           ("srv", .struct [("config", .struct [("Clustering", .struct [("ServerID", .str me), ("ReplicaMaxLeaderTimeout", .int timeout), ("ReplicaFetchTimeout", .int 5)])]),
+                            ("metadata", .struct [("kind", .str "metadata")]), ("ncRepl", .struct [("kind", .str "nats")])])]
+
+/-- the clock says how long the leader has been silent; the log its newest offset; marshalling and the NATS request succeed or not -/
+def follExt (elapsed newest : Int) (requestErr : Option String) : Ext := fun f args _ =>
+  if f = "time.Since" then some (.int elapsed)
+  else if f = "context.Background" then some (.str "ctx")
+  else if f = "ReportLeader" then some .nil
+  else if f = "NewestOffset" then some (.int newest)
+  else if f = "proto.MarshalReplicationRequest" then
+    match args with
+    | [r] => some (.tup [r, .nil])
+    | _ => none
+  else if f = "getReplicationRequestInbox" then some (.str "inbox")
+  else if f = "Request" then
+    match requestErr with
+    | some e => some (.tup [.nil, .str e])
+    | none => some (.tup [.struct [("Data", .list [])], .nil])
+  else if f = "proto.UnmarshalReplicationResponse" then some (.tup [.int 0, .int 0, .nil, .str "empty"])
+  else none
+
+def reports : R Out → Option (List (List Val))
+  | .ok o => some ((o.eff.filter fun e => e.1 = "ReportLeader").map (·.2))
+  | _ => none
+
+set_option maxRecDepth 8000 in
+/-- the leader is reported iff it has been silent for MORE than the configured time, once, and the report names this replica, the leader
+it was following and the leader epoch it was following it under (so that a report about an earlier term is refused by the controller) -/
+theorem go_checkLeaderHealth (me stream : String) (id timeout elapsed newest : Int) (leader : String) (epoch : Int) :
+    reports (runG prog (follExt elapsed newest none) 30 "checkLeaderHealth" (some (encPartR me stream id timeout)) [.str leader, .int epoch, .str "last seen"] []) =
+      some (if elapsed > timeout then
+              [[.str "ctx", .struct [("Stream", .str stream), ("Partition", .int id), ("Replica", .str me), ("Leader", .str leader), ("LeaderEpoch", .int epoch)]]]
+            else []) := by
+  by_cases h : elapsed > timeout <;>
+    simp [runG, fn_partition_checkLeaderHealth, gomini, reports, follExt, encPartR, binVal_int, binInt, truthy, getField, lookup, builtin, h, logV]
+
+/-- (what was marshalled as the replication request, the values returned) -/
+def reqView : R Out → Option (List (List Val) × List Val)
+  | .ok o => some ((o.eff.filter fun e => e.1 = "proto.MarshalReplicationRequest").map (·.2), o.rets)
+  | _ => none
+
+set_option maxRecDepth 8000 in
+set_option maxHeartbeats 2000000 in
+/-- a fetch names this server as the replica, the follower's NEWEST offset and the leader epoch the follower is following; a
+failed request is an error and nothing is handled -/
+theorem go_sendReplicationRequest_failed (me stream : String) (id timeout elapsed newest epoch : Int) (e : String) :
+    reqView (runG prog (follExt elapsed newest (some e)) 30 "sendReplicationRequest" (some (encPartR me stream id timeout)) [.int epoch] []) =
+      some ([[.struct [("ReplicaID", .str me), ("Offset", .int newest), ("LeaderEpoch", .int epoch)]]], [.int 0, .str e]) := by
+  simp [runG, fn_partition_sendReplicationRequest, gomini, reqView, follExt, encPartR, binVal_int, binInt, truthy, getField, lookup, builtin, logV, assignAll,
+    assignTo]
+
+set_option maxRecDepth 8000 in
+set_option maxHeartbeats 2000000 in
+theorem go_sendReplicationRequest_request (me stream : String) (id timeout elapsed newest epoch : Int) :
+    (reqView (runG prog (follExt elapsed newest none) 30 "sendReplicationRequest" (some (encPartR me stream id timeout)) [.int epoch] [])).map (·.1) =
+      some [[.struct [("ReplicaID", .str me), ("Offset", .int newest), ("LeaderEpoch", .int epoch)]]] := by
+  simp [runG, fn_partition_sendReplicationRequest, fn_partition_handleReplicationResponse, gomini, reqView, follExt, encPartR, binVal_int, binInt, truthy, getField,
+    lookup, builtin, logV, assignAll, assignTo, bindParams, envOf]
+
 end Liftbridge.Props.GoReplication
